@@ -13,8 +13,12 @@ import (
 	"os"
 	"strconv"
 
+	"time"
+
 	prand "pgregory.net/rand"
 )
+
+func quiesceNative() { time.Sleep(1500 * time.Millisecond) }
 
 // Random draws of pgregory.net/rand are inputs: under the engine the drawing methods are solver
 // variables (Float64 in [0,1), Uint64n(n) < n, ...); natively the overlaid rand.go consults this
@@ -75,6 +79,7 @@ func load() {
 	if err != nil {
 		panic(err)
 	}
+	tape = nil // Unmarshal into a reused backing array keeps fields the JSON omits
 	if err := json.Unmarshal(b, &tape); err != nil {
 		panic(err)
 	}
@@ -95,6 +100,16 @@ func next(kind string) uint64 {
 	if tapePos >= len(tape) {
 		// A counterexample tape ends at the failing assertion; inputs drawn after it cannot
 		// undo the recorded failure, so they default to zero (ranged ones to their low end).
+		if len(Failures) > 0 {
+			return 0
+		}
+		panic(fmt.Sprintf("zzverif: tape exhausted at %d (want %s)", tapePos, kind))
+	}
+	// scheduling and map-order choices are the engine's own: natively the Go scheduler / runtime decides
+	for tapePos < len(tape) && (tape[tapePos].N == "schedule" || tape[tapePos].N == "map iteration order") {
+		tapePos++
+	}
+	if tapePos >= len(tape) {
 		if len(Failures) > 0 {
 			return 0
 		}
@@ -161,7 +176,12 @@ func NondetU64Range(lo, hi uint64) uint64 {
 func NondetFloatInt(lo, hi int64) float64 { return float64(int64(next("fint"))) }
 
 // Choice returns an arbitrary value in [0,n), explored exhaustively (one path per value).
-func Choice(n int) int { return int(next("choice")) }
+func Choice(n int) int {
+	if n <= 1 {
+		return 0 // the engine records no decision for a single alternative
+	}
+	return int(next("choice"))
+}
 
 // NondetBytes returns n arbitrary bytes.
 func NondetBytes(n int) []byte {
@@ -218,3 +238,11 @@ func B2I(a bool) int {
 	}
 	return 0
 }
+
+// Quiesce (engine only): every other goroutine and armed virtual timer runs until none can; the
+// caller continues at quiescence. Natively it yields for a while so that goroutines and real
+// timers get their turn (native confirmation of scheduling counterexamples is best effort).
+func Quiesce() { quiesceNative() }
+
+// GoroutinesBlocked (engine only): goroutines other than the caller that have not finished.
+func GoroutinesBlocked() int { return 0 }
